@@ -96,6 +96,9 @@ func (c CurlyRouter) matchesRouteByPathTokens(routeTokens, requestTokens []strin
 				if matchesRemainder {
 					break
 				}
+			} else if end := strings.Index(routeToken, "}"); end != -1 && !strings.HasSuffix(requestToken, routeToken[end+1:]) {
+				// parameter with a literal suffix, e.g. {name}.json ; the suffix must be present
+				return false, 0, 0
 			}
 		} else { // no { prefix
 			if requestToken != routeToken {
